@@ -76,6 +76,10 @@ type sdecl struct {
 	Svc     string `json:"svc"`
 	Port    portRef
 	Ingress string `json:"ingress"`
+	// Strict: the "/" begin path strict-host adds to a host; Root says where it leads:
+	// nil = the default backend (or 404), else the default host's first "/" declaration
+	Strict bool   `json:"strict,omitempty"`
+	Root   *sdecl `json:"-"`
 }
 
 func (d sdecl) key() string {
@@ -94,6 +98,8 @@ type specCl struct {
 	pods      []*api.Pod
 	def       string
 	drain     bool
+	strict    bool
+	hosts     map[string]bool // Host objects that exist: hosts of rules and of tls blocks ("" = default host)
 	sslRedir  bool
 	valid     map[string]bool
 	effective []sdecl
@@ -103,7 +109,7 @@ type specCl struct {
 
 func specCluster(in Input, rr runResult) *specCl {
 	c := &specCl{services: map[string]*api.Service{}, endpoints: map[string]*api.Endpoints{}, def: in.DefaultService,
-		drain: in.Drain, sslRedir: in.SSLRedirect, valid: rr.valid, tls: map[string]bool{}}
+		drain: in.Drain, strict: in.Strict, hosts: map[string]bool{}, sslRedir: in.SSLRedirect, valid: rr.valid, tls: map[string]bool{}}
 	for _, ob := range rr.objs {
 		switch o := ob.(type) {
 		case *networking.Ingress:
@@ -139,6 +145,7 @@ func specCluster(in Input, rr runResult) *specCl {
 			if r.HTTP == nil {
 				continue
 			}
+			c.hosts[r.Host] = true
 			for _, p := range r.HTTP.Paths {
 				if p.Backend.Service == nil {
 					continue
@@ -168,10 +175,56 @@ func specCluster(in Input, rr runResult) *specCl {
 		for _, t := range ing.Spec.TLS {
 			for _, h := range t.Hosts {
 				c.tls[h] = true
+				c.hosts[h] = true
+			}
+		}
+	}
+	if c.strict {
+		// strict-host: every host without a ("/", begin) path gets one, bound to the default host's
+		// first "/" path, else to the default backend
+		var root *sdecl
+		for i := range c.effective {
+			if c.effective[i].Default {
+				c.hosts[""] = true
+				if root == nil && c.effective[i].Path == "/" {
+					root = &c.effective[i]
+				}
+			}
+		}
+		n := len(c.effective)
+		for _, h := range sortedKeys(c.hosts) {
+			has := false
+			for _, d := range c.effective[:n] {
+				if d.Default == (h == "") && d.Host == h && d.Path == "/" && d.Type == ptBegin {
+					has = true
+				}
+			}
+			if !has {
+				c.effective = append(c.effective, sdecl{Default: h == "", Host: h, Path: "/", Type: ptBegin, Strict: true, Root: root, Ingress: "<strict-host>"})
 			}
 		}
 	}
 	return c
+}
+
+func sortedKeys(m map[string]bool) []string {
+	out := make([]string, 0, len(m))
+	for k := range m {
+		out = append(out, k)
+	}
+	sort.Strings(out)
+	return out
+}
+
+// isWild / wildMatches: "*.suffix" matches one non-empty label without '.' followed by .suffix
+func isWild(h string) bool { return strings.HasPrefix(h, "*.") }
+
+func wildMatches(h, reqhost string) bool {
+	if !isWild(h) {
+		return false
+	}
+	i := strings.Index(reqhost, ".")
+	return i > 0 && reqhost[i:] == asciiLower(h[1:])
 }
 
 func (c *specCl) validCount() int { return len(c.sorted) }
@@ -316,28 +369,37 @@ func (c *specCl) route(rq Req) Expect {
 		host = host[:i]
 	}
 	host = asciiLower(host)
-	var own, def []sdecl
+	var own, wild, def []sdecl
 	for _, d := range c.effective {
 		if !pathMatches(d.Type, d.Path, rq.Path) {
 			continue
 		}
-		if d.Default {
+		switch {
+		case d.Default:
 			def = append(def, d)
-		} else if asciiLower(d.Host) == host && (!rq.HTTPS || c.tls[d.Host]) {
+		case isWild(d.Host):
+			if wildMatches(d.Host, host) && (!rq.HTTPS || c.tls[d.Host]) {
+				wild = append(wild, d)
+			}
+		case asciiLower(d.Host) == host && (!rq.HTTPS || c.tls[d.Host]):
 			own = append(own, d)
 		}
 	}
-	if d := best(own); d != nil {
-		if c.sslRedir && !rq.HTTPS && c.tls[d.Host] {
-			// ssl-redirect (default true): plain http of a rule whose host has TLS goes to https
-			return Expect{Kind: "redirect", Servers: []string{}, Via: "host", Decl: d, Ambiguous: tie(own, d)}
+	for _, tier := range []struct {
+		ds  []sdecl
+		via string
+	}{{own, "host"}, {wild, "wildcard host"}, {def, "default host"}} {
+		d := best(tier.ds)
+		if d == nil {
+			continue
 		}
-		svc, sp := c.namedPort(*d)
-		return Expect{Kind: "servers", Servers: c.servers(svc, sp), Via: "host", Decl: d, Ambiguous: tie(own, d)}
-	}
-	if d := best(def); d != nil {
-		svc, sp := c.namedPort(*d)
-		return Expect{Kind: "servers", Servers: c.servers(svc, sp), Via: "default host", Decl: d, Ambiguous: tie(def, d)}
+		if c.sslRedir && !rq.HTTPS && tier.via != "default host" && c.tls[d.Host] && !d.Strict {
+			// ssl-redirect (default true): plain http of a rule whose host has TLS goes to https
+			return Expect{Kind: "redirect", Servers: []string{}, Via: tier.via, Decl: d, Ambiguous: tie(tier.ds, d)}
+		}
+		e := c.serve(d, tier.via)
+		e.Ambiguous = tie(tier.ds, d)
+		return e
 	}
 	if c.def != "" {
 		if svc := c.services[c.def]; svc != nil && len(svc.Spec.Ports) > 0 {
@@ -345,6 +407,25 @@ func (c *specCl) route(rq Req) Expect {
 		}
 	}
 	return Expect{Kind: "404", Servers: []string{}, Via: "404"}
+}
+
+// serve: the servers a selected declaration designates (a strict-host path leads to the default
+// host's root declaration, else to the default backend, else to 404).
+func (c *specCl) serve(d *sdecl, via string) Expect {
+	if d.Strict {
+		if d.Root != nil {
+			svc, sp := c.namedPort(*d.Root)
+			return Expect{Kind: "servers", Servers: c.servers(svc, sp), Via: via + " (strict-host root)", Decl: d}
+		}
+		if c.def != "" {
+			if svc := c.services[c.def]; svc != nil && len(svc.Spec.Ports) > 0 {
+				return Expect{Kind: "servers", Servers: c.servers(svc, &svc.Spec.Ports[0]), Via: via + " (strict-host default backend)", Decl: d}
+			}
+		}
+		return Expect{Kind: "404", Servers: []string{}, Via: via + " (strict-host 404)", Decl: d}
+	}
+	svc, sp := c.namedPort(*d)
+	return Expect{Kind: "servers", Servers: c.servers(svc, sp), Via: via, Decl: d}
 }
 
 // servers: ready endpoints of the port; with drain-support not-ready and terminating ones at weight 0.
@@ -435,7 +516,86 @@ func (e Expect) agrees(ob Observed) (bool, string) {
 }
 
 // classify names the cause of a failure (the key known_findings.json is matched against).
+// pathRegex / codeWild: how the code matches on a wildcard host (one regex key per path in the
+// regex file, longest key first); only used to name the cause of a failure.
+func pathRegex(d sdecl) string {
+	switch d.Type {
+	case ptExact:
+		return d.Path + "$"
+	case ptPrefix:
+		if strings.HasSuffix(d.Path, "/") {
+			return d.Path
+		}
+		return d.Path + "(/.*)?"
+	}
+	return d.Path
+}
+
+func codeMatches(d sdecl, path string) bool {
+	if d.Type == ptExact {
+		return d.Path == path
+	}
+	return strings.HasPrefix(path, d.Path)
+}
+
+func (c *specCl) wildCause(rq Req) string {
+	host := rq.Host
+	if i := strings.Index(host, ":"); i >= 0 {
+		host = host[:i]
+	}
+	host = asciiLower(host)
+	var code, spec []sdecl
+	for _, d := range c.effective {
+		if d.Default || !isWild(d.Host) || !wildMatches(d.Host, host) || (rq.HTTPS && !c.tls[d.Host]) {
+			continue
+		}
+		if codeMatches(d, rq.Path) {
+			code = append(code, d)
+		}
+		if pathMatches(d.Type, d.Path, rq.Path) {
+			spec = append(spec, d)
+		}
+	}
+	if len(code) == 0 && len(spec) == 0 {
+		return ""
+	}
+	in := func(ds []sdecl, d sdecl) bool {
+		for _, x := range ds {
+			if x.key() == d.key() {
+				return true
+			}
+		}
+		return false
+	}
+	for _, d := range code {
+		if !in(spec, d) && d.Type == ptPrefix {
+			return "wildcard-prefix-not-on-element-boundary"
+		}
+	}
+	for _, d := range spec {
+		if !in(code, d) && d.Type == ptBegin {
+			return "wildcard-begin-case-sensitive"
+		}
+	}
+	for _, d := range spec {
+		if !in(code, d) && d.Type == ptPrefix {
+			return "wildcard-prefix-trailing-slash"
+		}
+	}
+	for _, d := range spec {
+		if !in(code, d) {
+			return "wildcard-path-match-differs"
+		}
+	}
+	return "wildcard-regex-length-precedence"
+}
+
 func (c *specCl) classify(rq Req, exp Expect, ob Observed) string {
+	if !strings.HasPrefix(exp.Via, "host") {
+		if cause := c.wildCause(rq); cause != "" {
+			return cause
+		}
+	}
 	if exp.Kind == "servers" && ob.Verdict == "backend" {
 		want := map[string]bool{}
 		for _, t := range exp.Servers {
